@@ -300,7 +300,7 @@ def run_shard(spec, acc):
                          ("mixed_usb_frames", framewise("usb", prio, d.pgn, src, dst, frames, long_lived="mixed")),
                          ("mixed_plain_frames", framewise("plain", prio, d.pgn, src, dst, frames, long_lived="mixed"))]
                 sibs_ = [x for x in dbx.by_pgn.get(d.pgn, []) if x is not d and x.supported and x.fixed_layout and (x.length or 0) > 8]
-                if sibs_ and c % 2 == 0:
+                if sibs_ and c % 2 == 0 and dbx.select(d.pgn, int.from_bytes(pb, "little")) is d:          # (the payload really is this definition's, not a sibling's)
                     # decoders whose id filter drops a sibling definition of this PGN, right after a message of that sibling on the
                     # same stream: frame by frame and pre-assembled alike, this message comes through
                     sib = sibs_[c % len(sibs_)]
